@@ -1,0 +1,23 @@
+//! Verification hooks, compiled only with the `verif-hooks` cargo feature.
+//!
+//! The only hook is a thread-local override of the wall clock that `Datastore::system_time`
+//! samples, so that an external test harness can place the client's clock relative to the expiry
+//! dates of generated metadata. With the feature off this module does not exist and the datastore
+//! reads `Utc::now()` exactly as before.
+
+use chrono::{DateTime, Utc};
+use std::cell::Cell;
+
+thread_local! {
+    static NOW: Cell<Option<DateTime<Utc>>> = const { Cell::new(None) };
+}
+
+/// Sets (or with `None` clears) the time that the datastore reports as "now" on this thread.
+pub fn set_now(now: Option<DateTime<Utc>>) {
+    NOW.with(|c| c.set(now));
+}
+
+/// The override in effect on this thread, if any.
+pub fn now_override() -> Option<DateTime<Utc>> {
+    NOW.with(Cell::get)
+}
